@@ -27,7 +27,9 @@ type Op struct {
 	// context.Canceled, "wrap" fmt.Errorf("%s: %w", T, io.EOF), "join" errors.Join(errors.New(T),
 	// io.ErrUnexpectedEOF), "same" the sentinel of the case's leaf once more (io.EOF when the leaf is no
 	// sentinel), "st" status.Error(C, T) (nil for OK), "cls" the sentinel number C (a second class: never
-	// generated, the result then depends on Go's map iteration order)
+	// generated, the result then depends on Go's map iteration order), "ctext" errors.New(T + the message TEXT of
+	// the class sentinel number (leaf class + C)): a class-less error that merely talks like ANOTHER class ("cause:
+	// canceled", or exactly "conflict")
 	K string `json:"k"`
 	T string `json:"t,omitempty"`
 	C int    `json:"c,omitempty"`
@@ -70,8 +72,19 @@ var errnoFor = map[int]syscall.Errno{0: syscall.EEXIST, 1: syscall.ENOENT, 4: sy
 
 func opNil(op Op) bool { return op.K == "N" || (op.K == "st" && op.C == 0) }
 
+// ctextOf: the text of a "ctext" operand
+func ctextOf(op Op, leaf Leaf) string {
+	c := op.C
+	if leaf.K == "S" {
+		c += leaf.C
+	}
+	return op.T + classes[c%len(classes)].Error()
+}
+
 func buildSide(op Op, leaf Leaf) error {
 	switch op.K {
+	case "ctext":
+		return errors.New(ctextOf(op, leaf))
 	case "eof":
 		return io.EOF
 	case "new":
@@ -99,6 +112,8 @@ func buildSide(op Op, leaf Leaf) error {
 func sideTerm(op Op, leaf Leaf) string {
 	plain := func(e error) string { return "Plain " + coqText(e.Error()) }
 	switch op.K {
+	case "ctext":
+		return "Plain " + coqText(ctextOf(op, leaf))
 	case "eof":
 		return plain(io.EOF)
 	case "new":
@@ -313,6 +328,13 @@ var multiVariants = []multiVariant{
 	{"V", "", []Op{{K: "H"}, {K: "new", T: "a: b"}}},
 	{"V", "", []Op{{K: "ctx"}, {K: "N"}, {K: "H"}}},
 	{"U", "custom", nil},
+	// a class-less side operand whose text ends with (or is) the message text of ANOTHER class, behind the wrapped
+	// value (the whole message then ends with that text), in front of it, and on both sides
+	{"M", "", []Op{{K: "H", A: ": "}, {K: "ctext", T: "cause: ", C: 1}}},
+	{"M", "", []Op{{K: "H", A: ": "}, {K: "ctext", C: 5}}},
+	{"J", "", []Op{{K: "H"}, {K: "ctext", T: "x: ", C: 7}}},
+	{"V", "", []Op{{K: "ctext", C: 3, T: "io: "}, {K: "H"}, {K: "ctext", T: ": ", C: 9}}},
+	{"M", "failed: ", []Op{{K: "ctext", C: 2, A: ": "}, {K: "H", A: ": "}, {K: "ctext", T: "b: ", C: 11}}},
 }
 
 // layers with a status error as a side operand: status.Code finds the first status error of the tree in
@@ -387,6 +409,9 @@ func randMulti(g *prng.R, withStatus bool) Frame {
 				op.K, op.C = "st", g.Intn(len(codeNames))
 			}
 			op.T = prng.Pick(g, sideTexts)
+			if g.Chance(1, 6) { // talks like another class
+				op.K, op.T, op.C = "ctext", prng.Pick(g, []string{"", "cause: ", ": ", "x"}), g.Range(1, len(classes)-1)
+			}
 		}
 		if f.K == "M" {
 			if i < n {
